@@ -71,6 +71,20 @@ func (h *queryHarness) Gen(r *Rand, tier string, clean bool) any {
 		c.Q = st.Q
 		break
 	}
+	if h.prop == "C10" && r.Chance(0.12) {
+		// a fully specified OPTIONAL clause with AS aliases, one already bound and one new: the only way to a
+		// left join on partially overlapping bindings (range join) through BQL
+		t := u[r.Intn(len(u))]
+		first := QClause{S: Tm{K: "b", B: "?s"}, P: Tm{K: "b", B: "?p"}, O: Tm{K: "b", B: "?o"}}
+		if r.Bool() {
+			first.P = Tm{K: "p", I: t[1]}
+		}
+		opt := QClause{Opt: true, S: Tm{K: "n", I: t[0], As: "?s"}, P: Tm{K: "p", I: t[1]}, O: Tm{K: "o", I: t[2], As: "?new"}}
+		if r.Chance(0.3) {
+			opt.S.As, opt.O.As = "?new", "?o" // the object alias is the bound one
+		}
+		c.Q = &Query{From: graphNames(c.Graphs), Where: []QClause{first, opt}, Proj: []Proj{{B: "?s"}, {B: "?o"}, {B: "?new"}}}
+	}
 	return c
 }
 
